@@ -250,11 +250,18 @@ impl Check for C07Check {
 
     fn generate(&self, seed: u64, index: u64, tier: Tier) -> Case {
         let mut st = streams(seed, "C07", index);
-        let depth = if tier == Tier::Thorough { 2 } else { 1 + st.workload.below(2) as u32 };
+        // nesting 1..3 (3 is rare in the quick tier: the bound grows with 2^levels)
+        let depth = match (tier, st.workload.below(8)) {
+            (Tier::Thorough, 0..=2) => 3,
+            (Tier::Thorough, _) => 2,
+            (Tier::Quick, 0) => 3,
+            (Tier::Quick, 1..=4) => 2,
+            _ => 1,
+        };
         let (root, suffix, prefix) = {
             let mut g = Gen { w: &mut st.workload, l: &mut st.leaves, next_leaf: 0 };
             let root = g.disjunction(depth);
-            let suffix = if g.w.chance(1, 4) {
+            let suffix = if g.w.chance(1, 3) {
                 // finite suffix on the second query variable
                 let n = 1 + g.l.below(2);
                 Some(G::Leaf(Leaf {
@@ -309,7 +316,7 @@ impl Check for C07Check {
          under a single-answer prefix and a finite suffix; every leaf value is unique so each answer names its alternative. \
          Oracle: each productive alternative is run alone (all disjunctions on its path reduced to it) and the quanta T for \
          its first <=3 answers recorded; in the whole program those answers must all appear within \
-         B = K*2^m*(T+8)+2048 quanta (m = mplus levels above the alternative, K = 64, 256 under yields/reorders). \
+         B = K*2^m*(T+8)+2048 quanta (m = mplus levels above the alternative, K = 256, 1024 under yields/reorders; capped at 1.5M quanta, above which a timeout is inconclusive). \
          distinct = (program, decision trace); non-trivial = the tree has >= 2 productive alternatives or a diverger/producer next to one"
             .into()
     }
@@ -327,7 +334,7 @@ impl Check for C07Check {
         if alts.is_empty() {
             return CaseResult { verdict: Verdict::Inconclusive("no productive alternative".into()), facts };
         }
-        let k: u64 = if case.cfg.is_exact() { 64 } else { 256 };
+        let k: u64 = if case.cfg.is_exact() { 256 } else { 1024 };
         // run every alternative alone
         let mut need: BTreeMap<i64, usize> = BTreeMap::new();
         let mut bound: u64 = 0;
@@ -364,7 +371,10 @@ impl Check for C07Check {
         if need.is_empty() {
             return CaseResult { verdict: Verdict::Inconclusive("no alternative answered alone".into()), facts };
         }
-        let bound = bound.min(3_500_000);
+        // the simulation cannot afford more than this many quanta per case; when the liveness bound is
+        // larger, running out of quanta proves nothing and the case is inconclusive
+        let bound_capped = bound > 1_500_000;
+        let bound = bound.min(1_500_000);
         let mut cfg = case.cfg.clone();
         cfg.quanta_budget = bound;
         cfg.work_cap = bound.saturating_mul(32).min(200_000_000);
@@ -457,6 +467,12 @@ impl Check for C07Check {
                         return CaseResult { verdict: Verdict::Inconclusive("work cap before quanta bound".into()), facts };
                     }
                     *facts.faults.entry("timeout").or_insert(0) += 1;
+                    if bound_capped {
+                        return CaseResult {
+                            verdict: Verdict::Inconclusive("liveness bound above the affordable quanta".into()),
+                            facts,
+                        };
+                    }
                     CaseResult {
                         verdict: Verdict::Violation {
                             class: "branch-starved".into(),
